@@ -942,11 +942,15 @@ class FakePutter(object):
 
 class RoutingRig(SR.SchedRig):
     '''the scheduler's raptor hand-off: real _schedule_incoming and control_cb
-       (register / unregister_raptor_queue) of the scheduler process part'''
+       (register / unregister_raptor_queue, and cancel_tasks over the tasks kept
+       for a master which has not registered yet) of the scheduler process part'''
 
-    def __init__(self, lay, rinfo, script=None, seed=0, p_env=0.35):
-        '''rinfo: dict uid -> {'rid': raptor id or '', 'seen': bool, 'worker': bool}'''
+    def __init__(self, lay, rinfo, script=None, seed=0, p_env=0.35, max_cancel=0):
+        '''rinfo: dict uid -> {'rid': raptor id or '', 'seen': bool, 'worker': bool}
+           script actions (beyond SchedRig's): ('register', name) ('unregister', name)
+           ('rcancel', [uids]); max_cancel: cancel requests of the random environment'''
         self.rinfo   = rinfo
+        self.ncancel, self.max_cancel = 0, max_cancel
         self.revents = []
         self.masters = sorted({r['rid'] for r in rinfo.values() if r['rid'] not in ('', '*')})
         self.registered, self.unregistered = set(), set()
@@ -974,6 +978,14 @@ class RoutingRig(SR.SchedRig):
         elif ev == 'Try'   : self.rlog('SLocal', uid=kw['uid'])
         elif ev == 'Adv' and kw['state'] == 'failed':
             self.rlog('SFail', uid=kw['uid'])
+        elif ev == 'Adv' and kw['state'] == 'canceled':
+            self.rlog('SCancel', uid=kw['uid'])
+
+    def cached(self):
+        out = []
+        for name in sorted(self.child._raptor_tasks):
+            out += [t['uid'] for t in self.child._raptor_tasks[name]]
+        return out
 
     def do_env(self, act):
         if act[0] == 'register':
@@ -987,11 +999,22 @@ class RoutingRig(SR.SchedRig):
             self.rlog('SUnreg', queue=act[1])
             self.child.control_cb(rpc.CONTROL_PUBSUB, {
                 'cmd': 'unregister_raptor_queue', 'arg': {'name': act[1]}})
+        elif act[0] == 'rcancel':
+            # a cancel request as the scheduler process gets it on the control channel
+            uids, before = list(act[1]), self.cached()
+            self.ncancel += 1
+            self.rlog('SCancelReq', uids=uids, before=before)
+            self.child.control_cb(rpc.CONTROL_PUBSUB, {'cmd': 'cancel_tasks',
+                                                       'arg': {'uids': list(uids)}})
+            self.rlog('SCancelDone', uids=uids, before=before, after=self.cached())
         else:
             SR.SchedRig.do_env(self, act)
 
     def enabled_env(self):
         acts = SR.SchedRig.enabled_env(self)
+        if self.ncancel < self.max_cancel and self.cached():
+            pool = sorted(self.rinfo)
+            acts.append(('rcancel', self.rng.sample(pool, self.rng.randint(1, min(3, len(pool))))))
         for m in self.masters:
             if m not in self.registered:
                 acts.append(('register', m))
